@@ -1,4 +1,5 @@
 """C06 — outputs do not depend on threads, hash seed, memory mode or repetition."""
+import inspect
 import io
 import json
 import os
@@ -188,7 +189,8 @@ def rand_chr_names(rng):
     style = rng.random()
     while len(names) < n:
         if style < 0.4:
-            nm = rng.choice(["chr", "Chr", "CHR", "", "scaffold_", "chr0"]) + rng.choice(
+            # "#": a contig name may start with '#' (legal first character of a reference name in the SAM specification)
+            nm = rng.choice(["chr", "Chr", "CHR", "", "scaffold_", "chr0", "#", "#c"]) + rng.choice(
                 ["1", "2", "10", "11", "02", "X", "Y", "M", "MT", "1_random", "Un_gl000220", "2L", "2R", "10a", "010"])
         else:
             nm = "".join(rng.choice(NAME_ALPHA) for _ in range(rng.randint(1, 8)))
@@ -202,17 +204,22 @@ def merge_case(rng):
     label = rng.choice(["Q7x", "smp9", "A_b"])
     suffix = rng.choice([".transcript_models.gtf", ".gene_counts.tsv", ".read_assignments.tsv", "_7.bed"])
     copy_header = rng.random() < 0.5
+    header_lines = rng.choice([0, 0, 1, 1, 3])
     contents = []
     for c in chr_ids:
         if rng.random() < 0.15:
             contents.append(None)
             continue
-        hdr = ["#hdr %s %d" % (c, i) for i in range(rng.choice([0, 0, 1, 2]))]
-        body = ["%s\t%d" % (c, i) for i in range(rng.randint(0, 3))]
+        # every part of one merge is written by the same printer: the same number of header lines (the caller of
+        # merge_files passes it); the RECORDS start with the contig name / a read id, which may begin with '#'
+        hdr = ["#hdr %s %d" % (c, i) for i in range(header_lines)]
+        first = rng.choice([c, c, "#read7", "#"]) if rng.random() < 0.3 else c
+        body = ["%s\t%d" % (first if i == 0 else c, i) for i in range(rng.randint(0, 3))]
         if rng.random() < 0.1:
             body.insert(1 if body else 0, "#late comment " + c)
         contents.append(hdr + body)
-    return {"chr_ids": chr_ids, "label": label, "suffix": suffix, "copy_header": copy_header, "contents": contents}
+    return {"chr_ids": chr_ids, "label": label, "suffix": suffix, "copy_header": copy_header, "contents": contents,
+            "header_lines": header_lines}
 
 
 def impl_merge(case, d):
@@ -231,7 +238,12 @@ def impl_merge(case, d):
     # merge_files removes every part unconditionally: a missing part raises FileNotFoundError *after* the merge
     err = None
     try:
-        merge_files(fname, case["label"], case["chr_ids"], buf, copy_header=case["copy_header"])
+        if "header_lines" in inspect.signature(merge_files).parameters:
+            merge_files(fname, case["label"], case["chr_ids"], buf, copy_header=case["copy_header"],
+                        header_lines=case["header_lines"])
+        else:
+            # a tree whose merge_files finds the header lines by content (before the repair fix_merge_header)
+            merge_files(fname, case["label"], case["chr_ids"], buf, copy_header=case["copy_header"])
     except FileNotFoundError:
         err = "FileNotFoundError"
     for n in names:
@@ -252,7 +264,8 @@ def corr_merge(ctx, n):
             names, lines, err = impl_merge(case, d)
             cases.append(case)
             impls.append((names, lines, err))
-            reqs.append(vlib.req("C06.merge_files", names=names, files=case["contents"], copy_header=case["copy_header"]))
+            reqs.append(vlib.req("C06.merge_files", names=names, files=case["contents"], copy_header=case["copy_header"],
+                                 header_lines=case["header_lines"]))
             reqs.append(vlib.req("C06.part_name", pre=os.path.join(d, ""), label=case["label"], suf=case["suffix"], chr=case["chr_ids"][0]))
         outs = ctx.driver.run(reqs)
         for i, case in enumerate(cases):
